@@ -345,4 +345,21 @@ theorem AList_get_set (m : AList String Position) (k : String) (v : Position) :
       simp only [AList.get?, List.find?_cons, h, decide_false] at ih ⊢
       exact ih
 
+/-- a rejected operation returns the state it was given -/
+theorem step_err {cx : DCtx} {c : TokenCfg} {s s' : DState} {op : Op} {e : Err}
+    (h : step cx c s op = (.error e, s')) : s' = s := by
+  cases op with
+  | buy r => exact buy_err h
+  | sell r => exact sell_err h
+  | deposit a => exact deposit_err h
+  | withdraw a => exact withdraw_err h
+  | balance =>
+    simp only [step, getMarketBalance] at h
+    split at h
+    · simp at h
+    · split at h
+      · simp at h
+      · split at h <;> simp at h
+  | update => simp [step] at h
+
 end Demeter.Deribit
